@@ -30,6 +30,11 @@ func (db *DB) repairCompactions() error {
 			return err
 		}
 
+		// the walk starts with the database folder itself, which is not one of its own folders whatever it is called
+		if p == db.basePath {
+			return nil
+		}
+
 		if info.IsDir() && strings.HasPrefix(info.Name(), SSTableCompactionPathPrefix) {
 			err := func() (err error) {
 				metaPath := filepath.Join(p, CompactionFinishedSuccessfulFileName)
@@ -123,6 +128,11 @@ func (db *DB) reconstructSSTables() error {
 	err := filepath.Walk(db.basePath, func(path string, info os.FileInfo, err error) error {
 		if err != nil {
 			return err
+		}
+
+		// the walk starts with the database folder itself, which is not one of its own folders whatever it is called
+		if path == db.basePath {
+			return nil
 		}
 
 		if info.IsDir() && strings.HasPrefix(info.Name(), SSTableFlushPathPrefix) {
